@@ -156,8 +156,8 @@ class Base58Decoder:
 
         # Convert string to integer
         val = 0
-        for i, c in enumerate(data_str[::-1]):
-            val += alphabet.index(c) * (Base58Const.RADIX ** i)
+        for c in data_str:
+            val = (val * Base58Const.RADIX) + alphabet.index(c)
 
         dec = bytearray()
         while val > 0:
